@@ -152,9 +152,9 @@ RevertTarget(r, op) == IF op.rev = 0 THEN PrevRev(r) ELSE op.rev
 
 CanRequest(r, e, op) ==
     CASE op.kind = "install" -> ~Installed(r)
-      [] op.kind = "refresh" -> /\ Installed(r) /\ r.active /\ op.rev # r.cur
-                                \* the store is told which revisions are blocked and never offers those
-                                /\ (op.store => op.rev \notin Block(r))
+      \* NB a refresh of a NAMED snap is not subject to Block() ("only enforce refresh block if we are
+      \* refreshing everything", storehelpers.go); Block() is what refresh-all / auto-refresh send to the store
+      [] op.kind = "refresh" -> Installed(r) /\ r.active /\ op.rev # r.cur
       [] op.kind = "revert"  -> LET t == RevertTarget(r, op)
                                 IN  t # 0 /\ t # r.cur /\ r.active /\ t \in Range(r.seq)
       [] op.kind = "remove"  -> /\ Installed(r) /\ (op.rev # 0 => ~(r.active /\ op.rev = r.cur) /\ op.rev \in Range(r.seq))
